@@ -1,0 +1,20 @@
+//go:build verif
+
+package httpc
+
+// Contracts for the deductive verifier in /verif (govc). Comment-only file: adds no code.
+
+// fillPath: a `:name` segment of the URL path is replaced by the textual value of the path variable AS IT IS
+// (u.Path holds the decoded path: URL.String() escapes it exactly once on the way out, and the server's router
+// decodes it once - any escaping here would reach the server-side parser as part of the value); every other
+// segment is kept; a missing or empty variable is an error.
+//@ func fillPath
+//@   prop C05
+//@   opaque Errorf, Sprint, Split, Join
+//@   requires u != nil && m != nil
+//@   let seg = at_head(fields[rangeindex + 1])
+//@   let isVar = len(seg) > 0 && seg[0] == 58
+//@   loop 1 invariant -1 <= rangeindex && rangeindex <= len(fields)
+//@   loop 1 iteration-ensures [variable-segment-gets-the-value-verbatim] isVar ==> calls(Sprint) == 1 && fields[rangeindex] == ret(Sprint) && len(ret(Sprint)) > 0 && has(m, strsub(seg, 1, len(seg))) && unbox(arg(Sprint, 0), []any)[0] == m[strsub(seg, 1, len(seg))] && calls(nurl.PathEscape) == 0 && calls(nurl.QueryEscape) == 0
+//@   loop 1 iteration-ensures [plain-segment-kept] !isVar ==> fields[rangeindex] == seg && calls(Sprint) == 0
+//@   ensures [path-rejoined-from-segments] result == nil ==> calls(strings.Join) == 1 && u.Path == ret(strings.Join) && arg(strings.Join, 1) == "/"
